@@ -23,7 +23,7 @@ ASSUMPTIONS = [
     "wallet debits may snap to zero within the documented 1e-5 relative rule of Asset.sub",
 ]
 MIN_NONTRIVIAL = {"quick": 600, "thorough": 12000}
-REQUIRED_LABELS = ["ok.supply", "ok.withdraw", "ok.borrow", "ok.repay", "ok.repay.collateral", "ok.repay.collateral.other", "full.withdraw", "full.repay", "unequal_indices", "split.compared"]
+REQUIRED_LABELS = ["ok.supply", "ok.withdraw", "ok.borrow", "ok.repay", "ok.repay.collateral", "ok.repay.collateral.other", "full.withdraw", "full.repay", "unequal_indices", "split.compared", "wallet.allow_negative.near_balance"]
 
 TOL = Fraction(4, 10**18)
 REL = Fraction(1, 10**28)
@@ -131,7 +131,10 @@ class Obs(aave.Observer):
             a0 = fr(raw0["wal"].get(t, 0))
             a1 = fr(raw1["wal"].get(t, 0))
             exact = abs((a1 - a0) - d) <= REL * abs(d) + Fraction(1, 10**32) * max(abs(a0), abs(a1), 1)
-            snapped = d < 0 and a1 == 0 and a0 != 0 and abs((a0 + d) / a0) < Fraction(1, 10**5)
+            # the 1e-5 snap belongs to wallets that refuse overdrafts; a broker that allows negative balances debits exactly
+            snapped = not case.get("allow_negative") and d < 0 and a1 == 0 and a0 != 0 and abs((a0 + d) / a0) < Fraction(1, 10**5)
+            if case.get("allow_negative"):
+                self.labels.add("wallet.allow_negative" + (".near_balance" if d < 0 and a0 != 0 and 0 < abs((a0 + d) / a0) < Fraction(1, 10**5) else ""))
             ctx.check(exact or snapped, f"{kind}.wallet", lambda: f"{kind} {t} stated {float(d)}: wallet {raw0['wal'].get(t)} -> {raw1['wal'].get(t)}", case)
         for t in raw1["wal"]:
             if t not in dw:
